@@ -357,6 +357,10 @@ def run_case(ctx, case):
             tol = _float_tol(x, specs[i])
             # a text rounded upwards beyond the largest double (DBL_MAX with few digits prints as 2e+308) reads as inf
             over = abs(y) == float("inf") and (y > 0) == (x > 0) and abs(x) + tol >= 1.7976931348623157e308
+            # the same at the upper end of a C float when the specification has no 'l' (0x1.8p+127 printed with %.0a is
+            # 0x2p+127 = 2^128, which a float cannot hold)
+            lm_i = "l" if specs[i] == "%$" else _parse(specs[i])[3]
+            over = over or (lm_i == "" and abs(y) == float("inf") and (y > 0) == (x > 0) and abs(x) + tol >= 3.4028234663852886e38)
             if not (x == y or abs(x - y) <= tol or over):
                 return Result("Float %r written with %s read back as %r, tolerance %g (text %r)" % (x, specs[i], y, tol, text[:80]), nt, ev, None)
     if rret != want_ret:
